@@ -16,7 +16,7 @@
 (***************************************************************************)
 EXTENDS CertReload, IOUtils
 Rec == ndJsonDeserialize(IOEnv.TRACE)
-Kinds == {"write", "reload", "obs", "end"}
+Kinds == {"write", "reload", "obs", "race", "end"}
 InitSt(e) == [disk |-> InitDisk, srv |-> InitSrv, ce |-> IF "consts" \in DOMAIN e THEN e.consts.checkExpiry ELSE TRUE,
               reloaded |-> FALSE]
 Ok(s)      == [ok |-> TRUE, st |-> s, why |-> "", dev |-> "", site |-> ""]
@@ -40,9 +40,14 @@ Apply(s, e) ==
             ELSE IF e.lastchanged # s.reloaded THEN No(s, "the time of the last reload changed without a successful reload (or did not change)")
             ELSE IF ~e.old THEN No(s, "a session established before the reload was disturbed")
             ELSE Ok([s EXCEPT !.reloaded = FALSE])
+      \* reloads overlapping replacements of the certificate file (all certificates belong to the key on disk)
+      [] e.ev = "race" ->
+            IF e.mismatch > 0 THEN No(s, "after a reload that overlapped a replacement of the certificate file, the reported certificate information describes another certificate than the one being served")
+            ELSE IF e.expired > 0 THEN No(s, "a reload that overlapped a replacement of the certificate file installed an expired certificate although expiry is checked")
+            ELSE Ok(s)
       [] e.ev = "end" -> IF e.panics = 0 THEN Ok(s) ELSE No(s, "a task panicked")
       [] OTHER -> No(s, "unknown event")
-NonTrivial(e, r) == r.ok /\ e.ev = "reload"
+NonTrivial(e, r) == r.ok /\ (e.ev = "reload" \/ (e.ev = "race" /\ e.ok > 0))
 VARIABLES l, st, bad, devs, skip, scn, cnt, nt
 TK == INSTANCE TraceKit
 TSpec == TK!Spec
